@@ -108,7 +108,10 @@ def native_checks(rng, tier):
                                # traversals that end in a SIBLING of the root whose path starts with the root's path (a character-wise
                                # common-prefix test accepts them), with the separator / dot-dot not at the start of the id
                                "a/../../configs2/x", "x/../../configs2", "./../configs2/x", "a/../../configs2", "a/b/../../../configs2/x",
-                               "a\\..\\..\\configs2", "a/./../../configs2/x", "a/..", "a/../..", "a/../../configs"]
+                               "a\\..\\..\\configs2", "a/./../../configs2/x", "a/..", "a/../..", "a/../../configs",
+                               # percent-encoded traversals (an id must never be URL-decoded on its way to the path)
+                               "%2e%2e%2fconfigs2%2fx", "%2e%2e%2fconfigs2", "..%2fconfigs2%2fx", "%2e%2e/configs2/x", "a%2f..%2f..%2fconfigs2%2fx",
+                               "%2E%2E%2Fconfigs2%2Fx"]
             ids_lists = [[c] for c in corpus] + [["a", c] for c in corpus] + [[c, "a"] for c in corpus[:12]]
             if tier == "thorough":
                 alphabet = ["a", ".", "/", "\\", "..", "%", "2e", " "]
